@@ -150,6 +150,23 @@ theorem baseRet_wf (m t : Ty) (wm : wf m = true) (hb : baseRet m = some t) : wf 
   simp only [wf, Bool.and_eq_true] at wm
   exact wm.2
 
+def baseField (k : String) : Ty → Option Ty := fun | .struct fs => lookupF k fs | _ => none
+theorem wfF_lookup : ∀ (fs : List (String × Ty)) (k : String) (t : Ty), wfF fs = true → lookupF k fs = some t → wf t = true
+  | [], _, _, _, h => by simp [lookupF] at h
+  | (k2, t2) :: fs, k, t, hw, h => by
+    simp only [wfF, Bool.and_eq_true] at hw
+    rw [lookupF] at h
+    split at h
+    · cases h; exact hw.1
+    · exact wfF_lookup fs k t hw.2 h
+theorem baseField_wf (k : String) (m t : Ty) (wm : wf m = true) (hb : baseField k m = some t) : wf t = true := by
+  cases m <;> simp [baseField] at hb
+  rename_i fs
+  simp only [wf, Bool.and_eq_true] at wm
+  exact wfF_lookup fs k t wm.1 hb
+theorem fieldType_upper (k : String) (ms : List Ty) (T : Ty) (wl : wfL ms = true) (h : fieldType k (.multi ms) = some T) :
+    wf T = true ∧ ∀ m ∈ ms, ∃ t, baseField k m = some t ∧ sub t T = true := query_join_upper (baseField k) (baseField_wf k) ms T wl h
+
 theorem indexResult_upper (ms : List Ty) (T : Ty) (wl : wfL ms = true) (h : indexResult (.multi ms) = some T) :
     wf T = true ∧ ∀ m ∈ ms, ∃ t, baseIndex m = some t ∧ sub t T = true := query_join_upper baseIndex baseIndex_wf ms T wl h
 theorem tupleElementAt_upper (n : Nat) (ms : List Ty) (T : Ty) (wl : wfL ms = true) (h : tupleElementAt n (.multi ms) = some T) :
